@@ -39,7 +39,7 @@ func firstLit(n ast.Node) *ast.FuncLit {
 
 func init() {
 	prop("C08",
-		"(a) Checkpoint rotates the WAL, captures the level list and the last sequence number and registers the checkpoint in one db.mu write-locked section, with the pre-rotation writer; (b) the sealed WAL is saved before the checkpoints file, both errors are returned, and the handle is produced only after both; (c) Rotate carries every unflushed segment together with its sequence watermark into the next writer; (d) Truncate keeps exactly the segments above the flushed sequence number, its argument and the handle's After come from the level list they describe; (e) the WAL record writer and both reader loops agree on the record layout; (f) a captured level list is immutable; (g) LatestSeqNum bounds every table's sequence numbers; (h) a sealed writer rejects mutation; plus C01.h, C07.d, C07.e, C07.j.",
+		"(a) Checkpoint rotates the WAL, captures the level list and the last sequence number and registers the checkpoint in one db.mu write-locked section, with the pre-rotation writer; (b) the sealed WAL is saved before the checkpoints file, both errors are returned, and the handle is produced only after both; (c) Rotate carries every unflushed segment together with its sequence watermark into the next writer, in segment structs of its own (a segment holds the read cursor Save advances, so a struct shared with the old writer is drained by whichever is saved first); (d) Truncate keeps exactly the segments above the flushed sequence number, its argument and the handle's After come from the level list they describe; (e) the WAL record writer and both reader loops agree on the record layout; (f) a captured level list is immutable; (g) LatestSeqNum bounds every table's sequence numbers; (h) a sealed writer rejects mutation; plus C01.h, C07.d, C07.e, C07.j.",
 		"the reader's skip arithmetic over runtime sequence numbers beyond the expression's form; crash-point behaviour of the file system; equality of restored contents.")
 
 	register(&Obligation{ID: "C08.a", Props: []string{"C08", "C01"}, Template: "atomic-section",
@@ -219,7 +219,7 @@ func init() {
 		}})
 
 	register(&Obligation{ID: "C08.c", Props: []string{"C08", "C17", "C01"}, Template: "copy-completeness",
-		Desc: "wal.(*Writer).Rotate: every segment carried into the next writer keeps its sequence watermark (latestSeqNum), the active segment gets the writer's; otherwise the next Truncate drops unflushed entries",
+		Desc: "wal.(*Writer).Rotate: every segment carried into the next writer keeps its sequence watermark (latestSeqNum), the active segment gets the writer's; otherwise the next Truncate drops unflushed entries; while bufferSegment.Read keeps its cursor in the segment, no segment struct of the receiver is stored into the next writer",
 		Run: func(r *Run) {
 			f := r.P.Func("dkv/wal", "(*Writer).Rotate")
 			segT := r.P.TypeName("dkv/wal", "bufferSegment")
@@ -268,14 +268,222 @@ func init() {
 				}
 				return true
 			})
-			// alternatively segments may be shared by pointer; then no literal carries buf
-			if carried < 2 {
+			// A segment is also the io.Reader that Save drains: its Read advances a cursor kept in the
+			// segment. As long as that is so, a segment struct belongs to one writer: a *bufferSegment
+			// read from the receiver (w.activeBuffer, an element of w.sealedBuffers, the slice itself)
+			// must not be stored into the next writer, or the writer saved first drains the segment
+			// and the other writer's WAL file misses its entries.
+			segRead := r.P.Func("dkv/wal", "(*bufferSegment).Read")
+			cursor := ""
+			if segRead.Decl.Recv != nil && len(segRead.Decl.Recv.List) == 1 && len(segRead.Decl.Recv.List[0].Names) == 1 {
+				rv := info.Defs[segRead.Decl.Recv.List[0].Names[0]]
+				ast.Inspect(segRead.Decl.Body, func(nd ast.Node) bool {
+					var lhs []ast.Expr
+					switch x := nd.(type) {
+					case *ast.AssignStmt:
+						lhs = x.Lhs
+					case *ast.IncDecStmt:
+						lhs = []ast.Expr{x.X}
+					}
+					for _, l := range lhs {
+						if sel, ok := ast.Unparen(l).(*ast.SelectorExpr); ok && prog.IdentObjPlain(info, sel.X) == rv {
+							cursor = sel.Sel.Name
+						}
+					}
+					return true
+				})
+			}
+			var recv types.Object
+			if f.Decl.Recv != nil && len(f.Decl.Recv.List) == 1 && len(f.Decl.Recv.List[0].Names) == 1 {
+				recv = info.Defs[f.Decl.Recv.List[0].Names[0]]
+			}
+			isSegs := func(e ast.Expr) bool {
+				t := info.TypeOf(e)
+				if t == nil {
+					return false
+				}
+				if sl, ok := t.Underlying().(*types.Slice); ok {
+					t = sl.Elem()
+				}
+				pt, ok := t.Underlying().(*types.Pointer)
+				return ok && pt.Elem() == segT.Type()
+			}
+			rootIsRecv := func(e ast.Expr) bool {
+				for {
+					switch x := ast.Unparen(e).(type) {
+					case *ast.SelectorExpr:
+						e = x.X
+					case *ast.IndexExpr:
+						e = x.X
+					case *ast.SliceExpr:
+						e = x.X
+					case *ast.StarExpr:
+						e = x.X
+					case *ast.Ident:
+						return recv != nil && prog.IdentObj(info, x) == recv
+					default:
+						return false
+					}
+				}
+			}
+			// locals that hold one of the receiver's segments (flow-insensitive: any assignment, any
+			// range over a tainted slice), to a fixed point
+			taintedVar := map[types.Object]bool{}
+			taintDepth := 0
+			var tainted func(e ast.Expr) bool
+			tainted = func(e ast.Expr) bool {
+				if e == nil || !isSegs(e) {
+					return false
+				}
+				switch x := ast.Unparen(e).(type) {
+				case *ast.SelectorExpr:
+					fld := prog.SelField(info, x)
+					return (fld == sealed || fld == active) && rootIsRecv(x.X)
+				case *ast.IndexExpr:
+					return tainted(x.X)
+				case *ast.SliceExpr:
+					return tainted(x.X)
+				case *ast.Ident:
+					if o := info.Uses[x]; o != nil && taintedVar[o] {
+						return true
+					}
+					if o := prog.IdentObj(info, x); o != nil && taintedVar[o] {
+						return true
+					}
+					if d := ast.Unparen(deref(info, x)); d != ast.Expr(x) {
+						return tainted(d)
+					}
+				case *ast.CallExpr:
+					// an extracted helper hands back what its return statements say (its parameters
+					// stand for the arguments of this call)
+					if hf := r.P.FuncInfoOf(r.P.CalleeFunc(info, x)); isNewHelper(r.P, hf) && taintDepth < 3 {
+						taintDepth++
+						defer func() { taintDepth-- }()
+						any := false
+						ast.Inspect(hf.Decl.Body, func(nd ast.Node) bool {
+							if _, isLit := nd.(*ast.FuncLit); isLit {
+								return false
+							}
+							if ret, isRet := nd.(*ast.ReturnStmt); isRet {
+								for _, res := range ret.Results {
+									if tainted(res) {
+										any = true
+									}
+								}
+							}
+							return !any
+						})
+						return any
+					}
+					for _, a := range x.Args {
+						if tainted(a) {
+							return true
+						}
+					}
+				case *ast.CompositeLit:
+					for _, el := range x.Elts {
+						if kv, ok := el.(*ast.KeyValueExpr); ok {
+							el = kv.Value
+						}
+						if tainted(el) {
+							return true
+						}
+					}
+				}
+				return false
+			}
+			for changed := true; changed; {
+				changed = false
+				mark := func(l ast.Expr) {
+					if id, ok := ast.Unparen(l).(*ast.Ident); ok {
+						o := info.Defs[id]
+						if o == nil {
+							o = info.Uses[id]
+						}
+						if o != nil && !taintedVar[o] {
+							taintedVar[o] = true
+							changed = true
+						}
+					}
+				}
+				inspect(f.Decl.Body, func(nd ast.Node) bool {
+					switch x := nd.(type) {
+					case *ast.AssignStmt:
+						if len(x.Lhs) == len(x.Rhs) {
+							for i := range x.Lhs {
+								if tainted(x.Rhs[i]) {
+									mark(x.Lhs[i])
+								}
+							}
+						}
+					case *ast.RangeStmt:
+						if tainted(x.X) && x.Value != nil {
+							mark(x.Value)
+						}
+					}
+					return true
+				})
+			}
+			nStores := 0
+			inspect(f.Decl.Body, func(nd ast.Node) bool {
+				report := func(pos token.Pos, what string) {
+					if cursor == "" {
+						return
+					}
+					r.Fail(f.Name()+":segment-shared", pos, nil, "%s: a segment struct of the receiver is stored into the next writer, but a segment carries the read cursor (%s) that Save advances — whichever writer is saved first drains the shared segment and the other writer's WAL file misses its entries; carry the bytes in a fresh bufferSegment", what, cursor)
+				}
+				switch x := nd.(type) {
+				case *ast.AssignStmt:
+					if len(x.Lhs) != len(x.Rhs) {
+						return true
+					}
+					for i, l := range x.Lhs {
+						if !isSegs(l) {
+							continue
+						}
+						if _, plain := ast.Unparen(l).(*ast.Ident); plain || rootIsRecv(l) {
+							continue
+						}
+						nStores++
+						r.Site(x.Pos(), "segment store into the next writer")
+						if tainted(x.Rhs[i]) {
+							report(x.Pos(), types.ExprString(l)+" = "+types.ExprString(x.Rhs[i]))
+						}
+					}
+				case *ast.CallExpr:
+					if id, ok := ast.Unparen(x.Fun).(*ast.Ident); ok && id.Name == "copy" && info.Uses[id] == types.Universe.Lookup("copy") && len(x.Args) == 2 && isSegs(x.Args[0]) && !rootIsRecv(x.Args[0]) {
+						nStores++
+						r.Site(x.Pos(), "segment copy into the next writer")
+						if tainted(x.Args[1]) {
+							report(x.Pos(), "copy("+types.ExprString(x.Args[0])+", "+types.ExprString(x.Args[1])+")")
+						}
+					}
+				case *ast.CompositeLit:
+					if n, ok := derefType(info.TypeOf(x)).(*types.Named); ok && n.Obj().Name() == "Writer" {
+						for _, el := range x.Elts {
+							if kv, ok := el.(*ast.KeyValueExpr); ok && isSegs(kv.Value) {
+								nStores++
+								r.Site(kv.Pos(), "segment field of a Writer literal")
+								if tainted(kv.Value) {
+									report(kv.Pos(), types.ExprString(kv.Key)+": "+types.ExprString(kv.Value))
+								}
+							}
+						}
+					}
+				}
+				return true
+			})
+			if nStores == 0 {
+				r.Fail(f.Name()+":carry-all", f.Decl.Pos(), nil, "Rotate stores no segment into the next writer: the entries that are only in memory are missing from the next checkpoint's WAL")
+			}
+			if cursor == "" {
+				r.Note("bufferSegment.Read keeps no cursor in the segment: segments may be shared between writers")
+			}
+			if carried < 2 && cursor == "" {
 				// both the sealed list and the active buffer must reach the next writer
 				usesSealed, usesActive := exprUsesField(info, f.Decl.Body, sealed), exprUsesField(info, f.Decl.Body, active)
 				if !usesSealed || !usesActive {
 					r.Fail(f.Name()+":carry-all", f.Decl.Pos(), nil, "Rotate must carry both the sealed segments and the active segment into the next writer")
-				} else {
-					r.Note("Rotate shares segments by pointer; literal rule not applicable to %d literals", carried)
 				}
 			}
 			// the next writer continues the sequence watermark
